@@ -64,10 +64,12 @@ def main():
             signal.alarm(0)
             r = common.result(common.INC, why="harness error %s: %s" % (type(e).__name__, str(e)[:200]))
             r["trace"] = traceback.format_exc()[-1500:]
-        r["idx"] = idx
-        r["cs"] = cs
-        r["t"] = round(time.time() - t0, 4)
-        out.write(json.dumps(r, default=str) + "\n")
+        rs = r if isinstance(r, list) else [r]
+        for r in rs:
+            r["idx"] = idx
+            r["cs"] = cs
+            r["t"] = round(time.time() - t0, 4)
+            out.write(json.dumps(r, default=str) + "\n")
         out.flush()
     out.write(json.dumps({"done": True}) + "\n")
     out.close()
